@@ -24,6 +24,13 @@ import Mathlib.Tactic.Linarith
   their own run number); slips: `C18_table_id_order_counterexample`, `C18_table_hoisted_counterexample`
 * `C18_shared_predictive_model`   objects built from one `PredictiveModel` read through their own map;
   slip: `C18_shared_predictive_model_alias_counterexample`
+* `C18_pointwise_keeps_coordinates`, `C18_pointwise_derived_entry`, `C18_predictive_rows_derived`   datasets
+  derived from the one a controller returns (warm-up removed, thinned, a subset of chains, any order of such
+  steps; `C18_pointwise_shifted_entry` renumbered): the pointwise log-likelihood found under (chain = c, draw = d)
+  belongs to the parameters stored under these labels, the predictive model draws from exactly the rows kept
+  (`C18_axis_sublist_find`, `C18_axis_fromLabel_find`, `C18_axis_selLabels_find`, `C18_axis_shift_find` per step);
+  slip: coordinates rebuilt from the shape are right exactly for the default ranges
+  (`C18_pointwise_relabel_partial`, `C18_pointwise_relabel_counterexample`)
 -/
 set_option linter.unusedSectionVars false
 set_option linter.unusedSimpArgs false
@@ -1385,5 +1392,371 @@ theorem C18_shared_predictive_model_alias_counterexample :
     sharedRun false [.construct [], .use 0, .construct [("a", "Mean a")], .use 0] ["a", "b"] []
       = [some ["a", "b"], some ["a", "b"]] := by
   refine ⟨by decide, by decide, by decide, by decide⟩
+
+/-! ## chain / draw coordinates of derived datasets -/
+
+theorem Axis.find_cons (e : Nat × Nat) (ax : Axis) (l : Nat) :
+    Axis.find (e :: ax) l = if e.1 = l then some e.2 else Axis.find ax l := by
+  unfold Axis.find
+  by_cases h : e.1 = l
+  · simp [List.find?_cons, h]
+  · simp [List.find?_cons, h]
+
+theorem Axis.find_nil (l : Nat) : Axis.find [] l = none := rfl
+
+/-- a label that `find` answers for is a label of the axis, with that raw position -/
+theorem Axis.find_some_mem {ax : Axis} {l p : Nat} (h : Axis.find ax l = some p) : (l, p) ∈ ax := by
+  induction ax with
+  | nil => simp [Axis.find_nil] at h
+  | cons e es ih =>
+    rw [Axis.find_cons] at h
+    by_cases he : e.1 = l
+    · rw [if_pos he] at h
+      have : e = (l, p) := by
+        cases e; simp at he h; simp [he, h]
+      simp [this]
+    · rw [if_neg he] at h
+      exact List.mem_cons_of_mem _ (ih h)
+
+theorem Axis.find_isSome_iff (ax : Axis) (l : Nat) : (Axis.find ax l).isSome ↔ l ∈ Axis.labels ax := by
+  induction ax with
+  | nil => simp [Axis.find_nil, Axis.labels]
+  | cons e es ih =>
+    rw [Axis.find_cons]
+    by_cases he : e.1 = l
+    · simp [he, Axis.labels]
+    · rw [if_neg he, ih]
+      simp only [Axis.labels, List.map_cons, List.mem_cons]
+      constructor
+      · intro h; exact Or.inr h
+      · rintro (h | h)
+        · exact absurd h.symm he
+        · exact h
+
+/-- with pairwise different labels, every entry of the axis is the one `find` answers with -/
+theorem Axis.find_of_mem {ax : Axis} (hn : (Axis.labels ax).Nodup) {l p : Nat} (h : (l, p) ∈ ax) :
+    Axis.find ax l = some p := by
+  induction ax with
+  | nil => simp at h
+  | cons e es ih =>
+    rw [Axis.find_cons]
+    simp only [Axis.labels, List.map_cons, List.nodup_cons] at hn
+    rcases List.mem_cons.mp h with h | h
+    · subst h; simp
+    · have : e.1 ≠ l := by
+        intro he
+        apply hn.1
+        rw [he]
+        exact List.mem_map.mpr ⟨(l, p), h, rfl⟩
+      rw [if_neg this]
+      exact ih hn.2 h
+
+/-- the default coordinates: label `l` holds raw position `l` -/
+theorem Axis.find_ofRange (n l : Nat) : Axis.find (Axis.ofRange n) l = if l < n then some l else none := by
+  by_cases h : l < n
+  · rw [if_pos h]
+    apply Axis.find_of_mem
+    · have : Axis.labels (Axis.ofRange n) = List.range n := by
+        simp [Axis.labels, Axis.ofRange, Function.comp_def]
+      rw [this]; exact List.nodup_range
+    · simp [Axis.ofRange, h]
+  · rw [if_neg h]
+    have : ¬ (Axis.find (Axis.ofRange n) l).isSome := by
+      rw [Axis.find_isSome_iff]
+      simp [Axis.labels, Axis.ofRange, h]
+    simpa using this
+
+/-- **selection never moves an entry to another label**: whatever sub-list of an axis with pairwise
+    different labels is kept (warm-up removed, thinned, a subset), a label that is still there holds the
+    raw position it held before -/
+theorem C18_axis_sublist_find {ax' ax : Axis} (hs : List.Sublist ax' ax) (hn : (Axis.labels ax).Nodup)
+    {l p : Nat} (h : Axis.find ax' l = some p) : Axis.find ax l = some p :=
+  Axis.find_of_mem hn (hs.subset (Axis.find_some_mem h))
+
+theorem thinAxis_sublist (start step : Nat) (ax : Axis) : List.Sublist (thinAxis start step ax) ax := by
+  unfold thinAxis
+  have h1 : List.Sublist (ax.zipIdx.filter (fun e => decide (start ≤ e.2) && (e.2 - start) % step == 0))
+      ax.zipIdx := List.filter_sublist
+  have h2 := h1.map (fun e : (Nat × Nat) × Nat => e.1)
+  simpa using h2
+
+/-- `.sel(dim=slice(k, None))`: the labels from `k` on, each with its entry -/
+theorem C18_axis_fromLabel_find (k : Nat) (ax : Axis) (l : Nat) :
+    Axis.find (ax.filter (fun e => decide (k ≤ e.1))) l = if k ≤ l then Axis.find ax l else none := by
+  induction ax with
+  | nil => simp [Axis.find_nil]
+  | cons e es ih =>
+    by_cases hk : k ≤ e.1
+    · rw [List.filter_cons_of_pos (by simpa using hk), Axis.find_cons, Axis.find_cons, ih]
+      by_cases he : e.1 = l
+      · simp [he, he ▸ hk]
+      · simp [he]
+    · rw [List.filter_cons_of_neg (by simpa using hk), Axis.find_cons, ih]
+      by_cases he : e.1 = l
+      · have : ¬ k ≤ l := he ▸ hk
+        simp [this]
+      · simp [he]
+
+/-- `.assign_coords(dim=labels + off)`: the entry moves with its label -/
+theorem C18_axis_shift_find (off : Nat) (ax : Axis) (l : Nat) :
+    Axis.find (ax.map (fun e => (e.1 + off, e.2))) (l + off) = Axis.find ax l := by
+  induction ax with
+  | nil => rfl
+  | cons e es ih =>
+    rw [List.map_cons, Axis.find_cons, Axis.find_cons, ih]
+    by_cases he : e.1 = l
+    · simp [he]
+    · have : e.1 + off ≠ l + off := by omega
+      simp [he, this]
+
+theorem selLabels_spec (ax : Axis) : ∀ (ls : List Nat) (ax' : Axis), ls.mapM (selOne ax) = .ok ax' →
+    ax' = ls.map (fun l => (l, (Axis.find ax l).getD 0)) ∧ ∀ l ∈ ls, (Axis.find ax l).isSome
+  | [], ax', h => by
+    simp [List.mapM_nil, pure, Except.pure] at h
+    simp [← h]
+  | l :: ls, ax', h => by
+    rw [List.mapM_cons] at h
+    cases hf : Axis.find ax l with
+    | none =>
+      simp [selOne, hf, bind, Except.bind] at h
+    | some p =>
+      cases hr : ls.mapM (selOne ax) with
+      | error e => simp [selOne, hf, hr, bind, Except.bind] at h
+      | ok rest =>
+        simp [selOne, hf, hr, bind, Except.bind, pure, Except.pure] at h
+        obtain ⟨h1, h2⟩ := selLabels_spec ax ls rest hr
+        subst h
+        refine ⟨by simp [hf, h1], ?_⟩
+        intro l' hl'
+        rcases List.mem_cons.mp hl' with rfl | hl'
+        · simp [hf]
+        · exact h2 l' hl'
+
+/-- `.sel(dim=[l, ...])`: exactly the listed labels, each with the entry it had -/
+theorem C18_axis_selLabels_find {ax ax' : Axis} {ls : List Nat} (h : (DOp.selLabels ls).apply ax = .ok ax') :
+    Axis.labels ax' = ls ∧ ∀ l, Axis.find ax' l = if l ∈ ls then Axis.find ax l else none := by
+  obtain ⟨h1, h2⟩ := selLabels_spec ax ls ax' h
+  subst h1
+  refine ⟨by simp [Axis.labels, Function.comp_def], ?_⟩
+  intro l
+  clear h
+  induction ls with
+  | nil => simp [Axis.find_nil]
+  | cons m ms ih =>
+    rw [List.map_cons, Axis.find_cons]
+    by_cases hm : m = l
+    · subst hm
+      have := h2 m (by simp)
+      simp
+      cases hf : Axis.find ax m with
+      | none => simp [hf] at this
+      | some p => simp
+    · simp only [hm, if_false]
+      rw [ih (fun l' hl' => h2 l' (List.mem_cons_of_mem _ hl'))]
+      have : (l ∈ m :: ms) ↔ l ∈ ms := by
+        simp [List.mem_cons]; intro h; exact absurd h.symm hm
+      simp [this]
+
+/-! ### datasets derived from the one `_format_chains` returns -/
+
+/-- every label of the axis is the raw position it holds, below `n` — true of the default coordinates and
+    kept by every selection (not by a renumbering) -/
+def Axis.Plain (n : Nat) (ax : Axis) : Prop := ∀ e ∈ ax, e.1 = e.2 ∧ e.1 < n
+
+theorem Axis.plain_ofRange (n : Nat) : Axis.Plain n (Axis.ofRange n) := by
+  intro e he
+  simp only [Axis.ofRange, List.mem_map, List.mem_range] at he
+  obtain ⟨i, hi, rfl⟩ := he
+  exact ⟨rfl, hi⟩
+
+theorem Axis.Plain.sublist {n : Nat} {ax ax' : Axis} (h : Axis.Plain n ax) (hs : List.Sublist ax' ax) :
+    Axis.Plain n ax' := fun e he => h e (hs.subset he)
+
+theorem Axis.Plain.find {n : Nat} {ax : Axis} (h : Axis.Plain n ax) (l : Nat) :
+    Axis.find ax l = if l ∈ Axis.labels ax then some l else none := by
+  by_cases hl : l ∈ Axis.labels ax
+  · rw [if_pos hl]
+    have := (Axis.find_isSome_iff ax l).mpr hl
+    cases hf : Axis.find ax l with
+    | none => simp [hf] at this
+    | some p =>
+      have := (h _ (Axis.find_some_mem hf)).1
+      simp at this
+      rw [this]
+  · rw [if_neg hl]
+    have := mt (Axis.find_isSome_iff ax l).mp hl
+    simpa using this
+
+theorem DOp.apply_plain {n : Nat} {op : DOp} (hop : op.isShift = false) {ax ax' : Axis}
+    (h : Axis.Plain n ax) (ha : op.apply ax = .ok ax') : Axis.Plain n ax' := by
+  cases op with
+  | selLabels ls =>
+    obtain ⟨h1, h2⟩ := selLabels_spec ax ls ax' ha
+    intro e he
+    rw [h1] at he
+    obtain ⟨l, hl, rfl⟩ := List.mem_map.mp he
+    have hs := h2 l hl
+    cases hf : Axis.find ax l with
+    | none => simp [hf] at hs
+    | some p =>
+      have := h _ (Axis.find_some_mem hf)
+      simp at this
+      simp [this.1.symm, this.2]
+  | fromLabel k =>
+    simp only [DOp.apply, Except.ok.injEq] at ha
+    subst ha
+    exact h.sublist List.filter_sublist
+  | thin start step =>
+    simp only [DOp.apply] at ha
+    by_cases hs : step = 0
+    · simp [hs] at ha
+    · simp only [hs, if_false, Except.ok.injEq] at ha
+      subst ha
+      exact h.sublist (thinAxis_sublist _ _ _)
+  | shift off => simp [DOp.isShift] at hop
+
+theorem derive_plain {nC nD : Nat} : ∀ (steps : List DStep) (g g' : Axis × Axis),
+    (∀ st ∈ steps, st.2.isShift = false) → Axis.Plain nC g.1 → Axis.Plain nD g.2 →
+    derive steps g = .ok g' → Axis.Plain nC g'.1 ∧ Axis.Plain nD g'.2
+  | [], g, g', _, hc, hd, h => by
+    simp only [derive, Except.ok.injEq] at h
+    subst h
+    exact ⟨hc, hd⟩
+  | (true, op) :: rest, g, g', hs, hc, hd, h => by
+    simp only [derive] at h
+    cases ha : op.apply g.1 with
+    | error e => simp [ha] at h
+    | ok c =>
+      simp only [ha] at h
+      exact derive_plain rest (c, g.2) g' (fun st hst => hs st (List.mem_cons_of_mem _ hst))
+        (DOp.apply_plain (hs (true, op) (by simp)) hc ha) hd h
+  | (false, op) :: rest, g, g', hs, hc, hd, h => by
+    simp only [derive] at h
+    cases ha : op.apply g.2 with
+    | error e => simp [ha] at h
+    | ok d =>
+      simp only [ha] at h
+      exact derive_plain rest (g.1, d) g' (fun st hst => hs st (List.mem_cons_of_mem _ hst))
+        hc (DOp.apply_plain (hs (false, op) (by simp)) hd ha) h
+
+/-- **the result carries the dataset's coordinates** (code as it is, any dataset): the coordinates of
+    the pointwise log-likelihoods are the dataset's, and what is found under (chain = c, draw = d) was
+    computed from the parameters the dataset holds under (chain = c, draw = d) -/
+theorem C18_pointwise_keeps_coordinates (g : Axis × Axis) :
+    Axis.labels (resultAxis false g.1) = Axis.labels g.1 ∧
+    Axis.labels (resultAxis false g.2) = Axis.labels g.2 ∧
+    ∀ c d, entrySource (resultAxis false g.1, resultAxis false g.2) c d = entrySource g c d := by
+  simp [resultAxis]
+
+/-- **pointwise log-likelihoods of a derived dataset**: the dataset a controller returns for
+    `nC` chains and `nD` draws, after any sequence of selections on either dimension (warm-up removed,
+    thinned, subsets, in any order).  The result has an entry under (chain = c, draw = d) exactly for
+    the labels the derived dataset has, and that entry was computed from row (c, d) of the raw chains —
+    the parameters the ORIGINAL dataset holds under these labels -/
+theorem C18_pointwise_derived_entry (nC nD : Nat) (steps : List DStep) (g : Axis × Axis)
+    (hs : ∀ st ∈ steps, st.2.isShift = false)
+    (hd : derive steps (Axis.ofRange nC, Axis.ofRange nD) = .ok g) (c d : Nat) :
+    entrySource (resultAxis false g.1, resultAxis false g.2) c d
+      = if c ∈ Axis.labels g.1 ∧ d ∈ Axis.labels g.2 then some (c, d) else none := by
+  obtain ⟨hc, hdd⟩ := derive_plain steps _ g hs (Axis.plain_ofRange nC) (Axis.plain_ofRange nD) hd
+  simp only [resultAxis, Bool.false_eq_true, if_false, entrySource, hc.find, hdd.find]
+  by_cases h1 : c ∈ Axis.labels g.1 <;> by_cases h2 : d ∈ Axis.labels g.2 <;> simp [h1, h2]
+
+/-- the labels of a derived dataset are labels (= raw positions) of the original one -/
+theorem C18_derived_labels_within (nC nD : Nat) (steps : List DStep) (g : Axis × Axis)
+    (hs : ∀ st ∈ steps, st.2.isShift = false)
+    (hd : derive steps (Axis.ofRange nC, Axis.ofRange nD) = .ok g) :
+    (∀ c ∈ Axis.labels g.1, c < nC) ∧ (∀ d ∈ Axis.labels g.2, d < nD) := by
+  obtain ⟨hc, hdd⟩ := derive_plain steps _ g hs (Axis.plain_ofRange nC) (Axis.plain_ofRange nD) hd
+  constructor
+  · intro c hc'
+    obtain ⟨e, he, rfl⟩ := List.mem_map.mp hc'
+    exact (hc e he).2
+  · intro d hd'
+    obtain ⟨e, he, rfl⟩ := List.mem_map.mp hd'
+    exact (hdd e he).2
+
+/-! ### the slip: coordinates rebuilt from the shape -/
+
+theorem relabel_eq_iff (ax : Axis) : ∀ k : Nat,
+    ((ax.zipIdx k).map (fun e => (e.2, e.1.2)) = ax ↔ ax.map (·.1) = List.range' k ax.length) := by
+  induction ax with
+  | nil => intro k; simp
+  | cons e es ih =>
+    intro k
+    simp only [List.zipIdx_cons, List.map_cons, List.length_cons, List.range'_succ, List.cons.injEq]
+    rw [ih (k + 1)]
+    constructor
+    · rintro ⟨h1, h2⟩
+      refine ⟨?_, h2⟩
+      rw [← h1]
+    · rintro ⟨h1, h2⟩
+      refine ⟨?_, h2⟩
+      cases e; simp at h1; simp [h1]
+
+/-- rebuilding the coordinates of the result from its shape gives the right result **exactly** for the
+    datasets whose coordinates are the default ranges -/
+theorem C18_pointwise_relabel_partial (ax : Axis) :
+    resultAxis true ax = resultAxis false ax ↔ Axis.labels ax = List.range ax.length := by
+  simp only [resultAxis, if_true, Bool.false_eq_true, if_false, Axis.labels]
+  rw [List.range_eq_range']
+  exact relabel_eq_iff ax 0
+
+/-- warm-up of two draws discarded from a run of four: with rebuilt coordinates the entry found under
+    draw 0 belongs to the parameters of draw 2, and draw 3 — which the dataset has — is not found;
+    the code as it is answers under the dataset's labels -/
+theorem C18_pointwise_relabel_counterexample :
+    ∃ g, derive [(false, .fromLabel 2)] (Axis.ofRange 1, Axis.ofRange 4) = .ok g ∧
+      Axis.labels g.2 = [2, 3] ∧
+      entrySource (resultAxis true g.1, resultAxis true g.2) 0 0 = some (0, 2) ∧
+      entrySource (resultAxis true g.1, resultAxis true g.2) 0 3 = none ∧
+      entrySource (resultAxis false g.1, resultAxis false g.2) 0 3 = some (0, 3) ∧
+      entrySource (resultAxis false g.1, resultAxis false g.2) 0 0 = none :=
+  ⟨_, rfl, by decide, by decide, by decide, by decide, by decide⟩
+
+/-! ### the rows a posterior predictive model draws from -/
+
+theorem mem_matrixRows (g : Axis × Axis) (pc pd : Nat) :
+    (pc, pd) ∈ matrixRows g ↔ pc ∈ Axis.sources g.1 ∧ pd ∈ Axis.sources g.2 := by
+  simp only [matrixRows, List.mem_flatMap, List.mem_map, Axis.sources, Prod.mk.injEq]
+  constructor
+  · rintro ⟨c, hc, d, hd, rfl, rfl⟩
+    exact ⟨⟨c, hc, rfl⟩, ⟨d, hd, rfl⟩⟩
+  · rintro ⟨⟨c, hc, rfl⟩, ⟨d, hd, rfl⟩⟩
+    exact ⟨c, hc, d, hd, rfl, rfl⟩
+
+theorem length_matrixRows (g : Axis × Axis) : (matrixRows g).length = g.1.length * g.2.length := by
+  unfold matrixRows
+  induction g.1 with
+  | nil => simp
+  | cons c cs ih => simp [List.flatMap_cons, ih, Nat.succ_mul, Nat.add_comm]
+
+/-- **posterior predictive model on a derived dataset**: the matrix it draws from has one row per
+    (chain, draw) label pair of the derived dataset, and the rows are exactly the raw rows (c, d) with
+    c a chain label and d a draw label of it — no discarded draw, no dropped chain -/
+theorem C18_predictive_rows_derived (nC nD : Nat) (steps : List DStep) (g : Axis × Axis)
+    (hs : ∀ st ∈ steps, st.2.isShift = false)
+    (hd : derive steps (Axis.ofRange nC, Axis.ofRange nD) = .ok g) :
+    (matrixRows g).length = (Axis.labels g.1).length * (Axis.labels g.2).length ∧
+    ∀ pc pd, (pc, pd) ∈ matrixRows g ↔ pc ∈ Axis.labels g.1 ∧ pd ∈ Axis.labels g.2 := by
+  obtain ⟨hc, hdd⟩ := derive_plain steps _ g hs (Axis.plain_ofRange nC) (Axis.plain_ofRange nD) hd
+  refine ⟨by simp [length_matrixRows, Axis.labels], ?_⟩
+  intro pc pd
+  rw [mem_matrixRows]
+  have key : ∀ {n : Nat} {ax : Axis}, Axis.Plain n ax → Axis.sources ax = Axis.labels ax := by
+    intro n ax h
+    simp only [Axis.sources, Axis.labels]
+    apply List.map_congr_left
+    intro e he
+    exact (h e he).1.symm
+  rw [key hc, key hdd]
+
+/-- a renumbered dataset (`assign_coords(draw = draw + off)` after any selections): the entries move
+    with their labels — under (c, d + off) the result has what the dataset before the renumbering had
+    under (c, d) -/
+theorem C18_pointwise_shifted_entry (g : Axis × Axis) (off c d : Nat) :
+    entrySource (resultAxis false g.1, resultAxis false (g.2.map (fun e => (e.1 + off, e.2)))) c (d + off)
+      = entrySource g c d := by
+  simp only [resultAxis, Bool.false_eq_true, if_false, entrySource, C18_axis_shift_find]
 
 end ChiModel.Inference
